@@ -9,7 +9,7 @@ translator / proofs), the verdict line, the FAIL signatures and whether a concre
 import os, re, subprocess, sys, time
 
 ROOT = os.path.dirname(os.path.dirname(os.path.abspath(__file__)))
-WT = os.environ.get("C03_MUT_WT", "/tmp/scratch/st2-c03/wtm")
+WT = os.environ.get("C03_MUT_WT", "/tmp/scratch/st3-c03/wtm")
 G, B = "samplers/gibbs.py", "samplers/base.py"
 
 POP_ALPHA = """                    (new_regularity - previous_regularity) * temperature_inv
@@ -90,6 +90,21 @@ MUT = {
         "        alpha = torch.where(alpha > 3e38, torch.zeros_like(alpha), alpha)\n        accepted = self._group_metropolis_step(alpha)\n",
         "individual: alpha above the single-precision range (inf) zeroed: the largest improvements are rejected"),
 }
+# round 3: algebraically equal rewritings of exp(-D) whose float evaluation differs (factors beyond the range of exp)
+POP_FULL = "            alpha = torch.exp(\n                -1\n                * (\n" + POP_ALPHA
+IND_FULL = "        alpha = torch.exp(\n            -1\n            * (\n" + IND_ALPHA
+POP_FACT = ("            alpha = torch.exp(previous_attachment - new_attachment) * torch.exp((previous_regularity - new_regularity) * temperature_inv)\n"
+            "            accepted = self._metropolis_step(alpha)")
+IND_FACT = ("        alpha = torch.exp(previous_attachment - new_attachment) * torch.exp((previous_regularity - new_regularity) * temperature_inv)\n"
+            "        accepted = self._group_metropolis_step(alpha)")
+MUT.update({
+    "M33_pop_alpha_product_of_ratios": (G, POP_FULL, POP_FACT, "population: alpha = likelihood ratio x tempered prior ratio (= seed C03 of round 3, population site)"),
+    "M34_ind_alpha_product_of_ratios": (G, IND_FULL, IND_FACT, "individual: alpha = likelihood ratio x tempered prior ratio (= seed C03 of round 3, individual site)"),
+    "M35_pop_alpha_quotient": (G, POP_FULL, POP_FACT.replace("* torch.exp((previous_regularity - new_regularity) * temperature_inv)", "/ torch.exp((new_regularity - previous_regularity) * temperature_inv)"),
+                               "population: alpha = exp(-d_attach) / exp(tinv * d_regul) (inf / inf, 0 / 0 = nan)"),
+    "M36_ind_alpha_prior_ratio_power": (G, IND_FULL, IND_FACT.replace("torch.exp((previous_regularity - new_regularity) * temperature_inv)", "torch.exp(previous_regularity - new_regularity) ** temperature_inv"),
+                                        "individual: alpha = exp(-d_attach) * exp(-d_regul) ** tinv (the untempered prior ratio overflows first)"),
+})
 # a real two-coordinate block for the coordinate-wise Gibbs sampler on vectors: coordinate i+1 moves with coordinate i
 MUT["M07_gibbs_block_of_two_coordinates"] = (
     "variables/state.py", None, None, "coordinate-wise Gibbs on a vector: the put of block (i,) also adds half the change to coordinate i+1")
